@@ -832,7 +832,8 @@ Lemma valid_sk_ok s : forall c, has_sk s c = true -> valid_b c = true -> sk_ok s
 Proof.
   unfold valid_b. induction s as [|s' IH|s' IH]; intros c Hs Hv; [reflexivity| |].
   - destruct c; cbn in Hs; try discriminate; cbn [validb paramcheck is_strk] in Hv;
-      apply andb_true_iff in Hv; destruct Hv as [_ Hc]; cbn; eapply IH; eauto.
+      apply andb_true_iff in Hv; destruct Hv as [_ Hc]; try (apply andb_true_iff in Hs; destruct Hs as [_ Hs]);
+      cbn; eapply IH; eauto.
   - assert (exists c', has_sk s' c' = true /\ optionlike c' = false /\ validb None c' = true) as (c' & Hs' & Ho & Hc).
     { destruct c; cbn in Hs; try discriminate; cbn [validb paramcheck] in Hv;
         apply andb_true_iff in Hv; destruct Hv as [Hv Hc]; apply andb_true_iff in Hv; destruct Hv as [_ Ho];
@@ -846,7 +847,7 @@ Qed.
 Lemma need_le_csize s : forall c, has_sk s c = true -> (need s <= csize c)%nat.
 Proof.
   induction s as [|s' IH|s' IH]; intros c H; destruct c; cbn in H; try discriminate; cbn; try lia;
-    specialize (IH _ H); lia.
+    try (apply andb_true_iff in H; destruct H as [_ H]); specialize (IH _ H); lia.
 Qed.
 
 (* ---------------------------------------------------------------- (b) + (e): statements for Props *)
